@@ -299,10 +299,12 @@ func deriveOracle(calls []encCall, mixed, lossless bool) (StepOracle, StepFail) 
 		if o.BG {
 			best = invs[1].size
 		}
+		_ = best
 		if len(invs) >= 3 {
 			o.AltC, f.C = invs[2].alt, invs[2].failed
-			o.Key = !invs[2].failed && invs[2].size < best
 		}
+		// the key frame was chosen iff encodeKeyframe ran: a fourth encodeFrame invocation
+		o.Key = len(invs) >= 4
 		if len(invs) >= 4 {
 			f.K = invs[3].failed
 			if !invs[3].failed {
@@ -486,6 +488,16 @@ func Run(h *History, rng *Rand) (out *Outcome) {
 			cf.Input = lastAcc
 		}
 		out.Frames = append(out.Frames, cf)
+	}
+	// which dispose candidate a step took is visible in the file: the frame before the one it
+	// emitted carries the dispose-to-background flag (size ties are the encoder's choice)
+	if !out.Still {
+		for k := 1; k < len(out.Frames); k++ {
+			f := out.Frames[k]
+			if f.Input >= 0 && f.Input < len(out.Oracles) && !f.Filler && h.Frames[f.Input].RawOp == nil {
+				out.Oracles[f.Input].BG = out.Frames[k-1].DispBG
+			}
+		}
 	}
 	an, err := animation.DecodeBytes(data)
 	if err != nil {
